@@ -1,6 +1,9 @@
 import TnVerif.Lemmas.Tools
 import TnVerif.Lemmas.Broadcast
 import TnVerif.Model.Anova
+import TnVerif.Lemmas.TruncAnova
+import TnVerif.Props.C06
+import TnVerif.Props.C20
 import Mathlib.Algebra.Field.Basic
 import Mathlib.Tactic.FieldSimp
 /-!
@@ -269,5 +272,521 @@ theorem undo_anova_dense (t : Tensor R) (ws : List (Nat → R)) (idx : List Nat)
     (by simp [hal, Tensor.shape]) (by simp [hil, Tensor.shape])
     (fun js hj => anova_dense t ws js hw (by simpa [Tensor.shape] using hj))]
   exact applyMaps_leftInv _ _ t.shape t.dense idx (leftInv_anova t ws hw) hidx
+
+/-! ## `truncate_anova`, the single terms, orthogonality (extension) -/
+
+/-- `anova_decomposition` keeps the chain of bond sizes and the factor/core compatibility -/
+theorem anova_WFfrom (t : Tensor R) : ∀ (ws : List (Nat → R)) (p : Nat), ws.length = t.length → Tensor.WFfrom p t →
+    Tensor.WFfrom p (t.anova ws) := by
+  induction t with
+  | nil => intro ws p _ _; cases ws <;> trivial
+  | cons m ms ih =>
+    intro ws p hw h
+    cases ws with
+    | nil => simp at hw
+    | cons w ws =>
+      obtain ⟨h1, h2, h3⟩ := h
+      obtain ⟨c, U⟩ := m
+      cases U with
+      | none =>
+        refine ⟨h1, ?_, ih ws _ (by simpa using hw) h3⟩
+        simp [TMode.anova, TMode.ok, TMode.n]
+      | some U =>
+        refine ⟨h1, ?_, ih ws _ (by simpa using hw) h3⟩
+        simpa [TMode.anova, TMode.ok, Fac.lmul] using h2
+
+/-- `anova_decomposition` returns a well-formed tensor -/
+theorem anova_WF (t : Tensor R) (ws : List (Nat → R)) (hw : ws.length = t.length) (ht : t.WF) : (t.anova ws).WF := by
+  cases t with
+  | nil => exact absurd ht (by simp [Tensor.WF])
+  | cons m ms =>
+    cases ws with
+    | nil => simp at hw
+    | cons w ws =>
+      have := anova_WFfrom (m :: ms) (w :: ws) _ hw ht
+      obtain ⟨c, U⟩ := m
+      cases U <;> exact this
+
+/-- the per-mode operators of `anova_dense`, written with the normalised marginals `anovaNormWs` -/
+theorem anovaOps_zipWith (t : Tensor R) : ∀ (ws : List (Nat → R)),
+    List.zipWith (fun w (m : TMode R) => some (m.n + 1, anovaL m.n (normW m.n w))) ws t =
+      anovaOps (anovaNormWs ws t.shape) t.shape := by
+  induction t with
+  | nil => intro ws; cases ws <;> simp [anovaOps, anovaNormWs, Tensor.shape]
+  | cons m ms ih =>
+    intro ws
+    cases ws with
+    | nil => simp [anovaOps, anovaNormWs]
+    | cons w ws =>
+      have := ih ws
+      simp only [anovaNormWs, Tensor.shape] at this
+      simp only [List.zipWith_cons_cons, Tensor.shape, List.map_cons, anovaNormWs, anovaOps, this]
+
+/-- the index of a term in the extended array has one entry per mode -/
+theorem anovaExtIdx_length : ∀ (S x : List Nat), S.length = x.length → (anovaExtIdx S x).length = x.length := by
+  intro S
+  induction S with
+  | nil => intro x h; cases x with
+    | nil => rfl
+    | cons _ _ => simp at h
+  | cons b S ih =>
+    intro x h
+    cases x with
+    | nil => simp at h
+    | cons x0 xs => simp [anovaExtIdx, ih xs (by simpa using h)]
+
+/-- the entries of the ANOVA-extended tensor are the ANOVA terms of the dense array: at the index that has
+    `x_n + 1` on the modes of the subset `S` and `0` elsewhere stands the term of `S` at `x` -/
+theorem anova_dense_term (t : Tensor R) (ws : List (Nat → R)) (S x : List Nat) (hw : ws.length = t.length)
+    (hS : S.length = t.length) (hx : x.length = t.length) :
+    (t.anova ws).dense (anovaExtIdx S x) = anovaTerm (anovaNormWs ws t.shape) t.shape t.dense S x := by
+  rw [anova_dense t ws _ hw (by rw [anovaExtIdx_length S x (by rw [hS, hx]), hx]), anovaOps_zipWith]
+  rfl
+
+/-- `undo_anova_decomposition` removes one slice from every mode -/
+theorem undoAnova_shape (a : Tensor R) : a.undoAnova.shape = a.shape.map (· - 1) := by
+  induction a with
+  | nil => rfl
+  | cons m ms ih =>
+    simp only [Tensor.undoAnova, Tensor.shape, List.map_cons, List.map_map] at ih ⊢
+    simp only [TMode.undoAnova, spatialLin_n_sq, Function.comp_def]
+
+/-- the annotation `idxs` of the extended tensor has one label per slice (`[0] + [1] * I`) -/
+theorem anovaIdxs_lengths (ns : List Nat) : (anovaIdxs ns).map List.length = ns.map (· + 1) := by
+  simp [anovaIdxs, List.map_map, Function.comp_def]
+
+/-- `truncate_anova(t, mask, keepdim=True, marginals)` in terms of the entries of the extended array: the result is
+    a well-formed tensor of the shape of `t` whose entry at `x` is the sum over all subsets `S` of the mask's entry
+    at `S` times the entry of the ANOVA-extended array at (`x_n + 1` on `S`, `0` elsewhere) -/
+theorem truncate_anova_terms (t mask : Tensor R) (ws : List (Nat → R)) (ht : t.WF) (hm : mask.WF)
+    (hw : ws.length = t.length) (hml : mask.length = t.length) (hpos : ∀ n ∈ mask.shape, 0 < n) :
+    (t.truncateAnovaKeep mask ws).WF ∧ (t.truncateAnovaKeep mask ws).shape = t.shape ∧
+    ∀ x, inShape x t.shape →
+      (t.truncateAnovaKeep mask ws).dense x =
+        boxSum (List.replicate t.length 2) (fun S =>
+          mask.dense (anovaClamp mask.shape S) * anovaTerm (anovaNormWs ws t.shape) t.shape t.dense S x) := by
+  have ha := anova_WF t ws hw ht
+  have hsa := anova_shape t ws hw
+  have hal : (t.anova ws).length = t.length := by
+    have := congrArg List.length hsa; simpa [Tensor.shape] using this
+  obtain ⟨w1, w2, w3⟩ := C20.maskWith_dense (t.anova ws) mask (anovaIdxs t.shape) ha hm
+    (by simp [anovaIdxs, Tensor.shape, hml]) (by rw [anovaIdxs_lengths, hsa]) hpos
+  set am := (t.anova ws).maskWith (anovaIdxs t.shape) mask with ham
+  have hu : t.truncateAnovaKeep mask ws = am.linModes (am.map fun m => some (m.n - 1, undoL)) := by
+    rw [← undoAnova_linModes]; rfl
+  have haml : am.length = t.length := by
+    have := congrArg List.length w2; simp only [Tensor.shape, List.length_map] at this; rw [this, hal]
+  refine ⟨?_, ?_, ?_⟩
+  · rw [hu]; exact WF_linModes_dv _ am w1
+  · show am.undoAnova.shape = t.shape
+    rw [undoAnova_shape, w2, hsa, List.map_map]
+    simp [Function.comp_def]
+  · intro x hx
+    have hxl : x.length = t.length := by rw [inShape_length x t.shape hx, shape_length]
+    rw [hu]
+    unfold Tensor.dense
+    rw [dense_linModes am _ x (by simp) (by rw [haml, hxl])]
+    have hks : (am.map fun m => some (m.n - 1, undoL (R := R))) =
+        ((am.shape.map (· - 1)).map fun k => some (k, undoL (R := R))) := by
+      simp [Tensor.shape, List.map_map, Function.comp_def]
+    rw [hks, w2, hsa, applyMaps_undoL _ t.shape _ x (by simp) hx, shape_length]
+    apply boxSum_congr_inShape
+    intro S hS
+    have hSl : S.length = t.length := ((anova_inShape_two S t.length).mp hS).1
+    have hel : (anovaExtIdx S x).length = (t.anova ws).length := by
+      rw [anovaExtIdx_length S x (by rw [hSl, hxl]), hxl, hal]
+    have := w3 (anovaExtIdx S x) hel
+    simp only [Tensor.dense] at this
+    rw [this]
+    have h2 := anova_dense_term t ws S x hw hSl hxl
+    simp only [Tensor.dense] at h2
+    rw [h2, clampLabels_anova t.shape mask.shape S x (by rw [shape_length, shape_length, hml]) (by rw [shape_length, hSl]) hx]
+    exact mul_comm _ _
+
+
+/-- **the extended array holds the brute-force terms**: the entry of `anova_decomposition(t, marginals)` at the
+    index of subset `S` and point `x` is `f_S(x) = Σ_{T ⊆ S} (−1)^{|S|−|T|} E[f | x_T]`, the inclusion–exclusion
+    formula evaluated on the dense array `f` of `t` under the product of the normalised marginals -/
+theorem anova_term_bruteforce (t : Tensor R) (ws : List (Nat → R)) (S x : List Nat) (hw : ws.length = t.length)
+    (hS : S.length = t.length) (hx : inShape x t.shape) :
+    (t.anova ws).dense (anovaExtIdx S x) = anovaProj (anovaNormWs ws t.shape) t.shape t.dense S x := by
+  have hxl : x.length = t.length := by rw [inShape_length x t.shape hx, shape_length]
+  rw [anova_dense_term t ws S x hw hS hxl,
+    anovaTerm_eq_proj _ _ _ S x (by simp [anovaNormWs, shape_length, hw]) (by rw [shape_length, hS]) hx]
+
+/-- **`truncate_anova(t, mask, keepdim=True, marginals)`**: the result is a well-formed tensor of the shape of `t`
+    whose entry at `x` is the sum, over all subsets `S` of variables, of the mask's entry at `S` (its 0/1 labels,
+    clamped to the mask's sizes) times the brute-force ANOVA term
+    `f_S(x) = Σ_{T ⊆ S} (−1)^{|S|−|T|} E[f | x_T]` of the dense array `f` under the normalised marginals:
+    truncating keeps exactly the terms the mask selects, with the mask's weights.
+    Any number of modes, sizes, ranks, formats; any marginals; any mask values. -/
+theorem truncate_anova_dense (t mask : Tensor R) (ws : List (Nat → R)) (ht : t.WF) (hm : mask.WF)
+    (hw : ws.length = t.length) (hml : mask.length = t.length) (hpos : ∀ n ∈ mask.shape, 0 < n) :
+    (t.truncateAnovaKeep mask ws).WF ∧ (t.truncateAnovaKeep mask ws).shape = t.shape ∧
+    ∀ x, inShape x t.shape →
+      (t.truncateAnovaKeep mask ws).dense x =
+        boxSum (List.replicate t.length 2) (fun S =>
+          mask.dense (anovaClamp mask.shape S) * anovaProj (anovaNormWs ws t.shape) t.shape t.dense S x) := by
+  obtain ⟨h1, h2, h3⟩ := truncate_anova_terms t mask ws ht hm hw hml hpos
+  refine ⟨h1, h2, fun x hx => ?_⟩
+  rw [h3 x hx]
+  apply boxSum_congr_inShape
+  intro S hS
+  have hSl : S.length = t.length := ((anova_inShape_two S t.length).mp hS).1
+  rw [anovaTerm_eq_proj _ _ _ S x (by simp [anovaNormWs, shape_length, hw]) (by rw [shape_length, hSl]) hx]
+
+/-- the same for a mask over the 2-symbol box (`tn.symbols`, `tn.only`, …): the weight of the term of `S` is the
+    mask's entry at `S` -/
+theorem truncate_anova_dense_box (t mask : Tensor R) (ws : List (Nat → R)) (ht : t.WF) (hm : mask.WF)
+    (hw : ws.length = t.length) (hsh : mask.shape = List.replicate t.length 2) (x : List Nat) (hx : inShape x t.shape) :
+    (t.truncateAnovaKeep mask ws).dense x =
+      boxSum (List.replicate t.length 2) (fun S =>
+        mask.dense S * anovaProj (anovaNormWs ws t.shape) t.shape t.dense S x) := by
+  have hml : mask.length = t.length := by
+    have := congrArg List.length hsh; simpa [Tensor.shape] using this
+  rw [(truncate_anova_dense t mask ws ht hm hw hml (by rw [hsh]; intro n hn; rw [List.eq_of_mem_replicate hn]; decide)).2.2 x hx]
+  apply boxSum_congr_inShape
+  intro S hS
+  obtain ⟨hSl, hSb⟩ := (anova_inShape_two S t.length).mp hS
+  rw [hsh, ← hSl, anovaClamp_two S hSb]
+
+/-! ### the laws of the single terms, at the level of the extended tensor -/
+
+/-- **a term depends only on its own variables**: the entry of the extended tensor for the subset `S` is the same
+    at two points that agree on the variables of `S` -/
+theorem anova_term_depends_only (t : Tensor R) (ws : List (Nat → R)) (S x x' : List Nat) (hl : x.length = x'.length)
+    (h : ∀ k, S.getD k 0 ≠ 0 → x.getD k 0 = x'.getD k 0) :
+    (t.anova ws).dense (anovaExtIdx S x) = (t.anova ws).dense (anovaExtIdx S x') := by
+  rw [anovaExtIdx_agree S x x' hl h]
+
+/-- **a term has zero mean along each of its own variables**: for a variable (position `pre.length`) that belongs
+    to `S`, the mean of the term over that variable, weighted by its normalised marginal, vanishes — whatever the
+    other coordinates `pre`, `post` are -/
+theorem anova_term_centered (t : Tensor R) (ws : List (Nat → R)) (S pre post : List Nat) (hw : ws.length = t.length)
+    (hS : S.length = t.length) (hlen : pre.length + 1 + post.length = t.length) (hk : S.getD pre.length 0 ≠ 0)
+    (hsum : sumTo (t.shape.getD pre.length 0) (ws.getD pre.length (fun _ => 0)) ≠ 0) :
+    (∑ i ∈ range (t.shape.getD pre.length 0),
+      normW (t.shape.getD pre.length 0) (ws.getD pre.length (fun _ => 0)) i *
+        (t.anova ws).dense (anovaExtIdx S (pre ++ i :: post))) = 0 := by
+  have hkl : pre.length < t.length := by omega
+  have hg := anovaNormWs_getD ws t.shape pre.length (by omega) (by rw [shape_length]; exact hkl)
+  have := anovaTerm_centered_at pre (anovaNormWs ws t.shape) t.shape t.dense S post hk
+    (by rw [hg]; exact normW_sum _ _ hsum)
+  rw [hg] at this
+  refine Eq.trans ?_ this
+  apply Finset.sum_congr rfl; intro i _
+  rw [anova_dense_term t ws S (pre ++ i :: post) hw hS (by simp; omega)]
+
+/-- **the empty term is the constant mean**: the entry of the extended tensor at the all-zero index is the mean of
+    the dense array under the product of the normalised marginals -/
+theorem anova_empty_term (t : Tensor R) (ws : List (Nat → R)) (hw : ws.length = t.length) :
+    (t.anova ws).dense (List.replicate t.length 0) =
+      boxSum t.shape (fun y => anovaProdW (anovaNormWs ws t.shape) y * t.dense y) := by
+  have h1 := anova_dense_term t ws (List.replicate t.length 0) (List.replicate t.length 0) hw (by simp) (by simp)
+  rw [anovaExtIdx_zero t.length _ (by simp)] at h1
+  rw [h1]
+  have := anovaTerm_empty (anovaNormWs ws t.shape) t.shape t.dense (List.replicate t.length 0)
+    (anovaNormWs_length ws t.shape (by rw [shape_length, hw])) (by simp [shape_length])
+  rw [shape_length] at this
+  exact this
+
+/-- **the terms sum to the function**: adding the entries of the extended tensor over all subsets gives the
+    entry of `t` -/
+theorem anova_terms_sum (t : Tensor R) (ws : List (Nat → R)) (x : List Nat) (hw : ws.length = t.length)
+    (hx : inShape x t.shape) :
+    boxSum (List.replicate t.length 2) (fun S => (t.anova ws).dense (anovaExtIdx S x)) = t.dense x := by
+  have hxl : x.length = t.length := by rw [inShape_length x t.shape hx, shape_length]
+  have := anovaTerm_sum_all (anovaNormWs ws t.shape) t.shape t.dense x
+    (anovaNormWs_length ws t.shape (by rw [shape_length, hw])) hx
+  rw [shape_length] at this
+  rw [← this]
+  apply boxSum_congr_inShape
+  intro S hS
+  exact anova_dense_term t ws S x hw ((anova_inShape_two S t.length).mp hS).1 hxl
+
+/-- **distinct terms are orthogonal** under the product of the normalised marginals: for two different subsets
+    (0/1 lists) `Σ_x W(x) · f_S(x) · f_S'(x) = 0` — any number of modes and sizes, any marginals with non-zero sums -/
+theorem anova_terms_orthogonal (t : Tensor R) (ws : List (Nat → R)) (S S' : List Nat)
+    (hok : anovaMargOK ws t.shape) (hS : inShape S (List.replicate t.length 2))
+    (hS' : inShape S' (List.replicate t.length 2)) (hne : S ≠ S') :
+    boxSum t.shape (fun x => anovaProdW (anovaNormWs ws t.shape) x *
+      ((t.anova ws).dense (anovaExtIdx S x) * (t.anova ws).dense (anovaExtIdx S' x))) = 0 := by
+  have hw : ws.length = t.length := by rw [anovaMargOK_length ws t.shape hok, shape_length]
+  obtain ⟨hSl, hSb⟩ := (anova_inShape_two S t.length).mp hS
+  obtain ⟨hSl', hSb'⟩ := (anova_inShape_two S' t.length).mp hS'
+  rw [← anovaTerm_orthogonal (anovaNormWs ws t.shape) t.shape t.dense t.dense S S' (anovaNormalized_normWs ws t.shape hok)
+    (by rw [shape_length, hSl]) (by rw [shape_length, hSl']) (fun h => hne (anovaBits_eq S S' hSb hSb' h))]
+  apply boxSum_congr_inShape
+  intro x hx
+  have hxl : x.length = t.length := by rw [inShape_length x t.shape hx, shape_length]
+  rw [anova_dense_term t ws S x hw hSl hxl, anova_dense_term t ws S' x hw hSl' hxl]
+
+/-! ### truncation keeps exactly the selected terms -/
+
+/-- **selecting every term returns the tensor**: with a mask over the 2-symbol box whose entries are all 1,
+    `truncate_anova` reproduces `t` -/
+theorem truncate_all (t mask : Tensor R) (ws : List (Nat → R)) (ht : t.WF) (hm : mask.WF)
+    (hw : ws.length = t.length) (hsh : mask.shape = List.replicate t.length 2)
+    (hone : ∀ S, inShape S mask.shape → mask.dense S = 1) (x : List Nat) (hx : inShape x t.shape) :
+    (t.truncateAnovaKeep mask ws).dense x = t.dense x := by
+  rw [truncate_anova_dense_box t mask ws ht hm hw hsh x hx, ← anova_terms_sum t ws x hw hx]
+  apply boxSum_congr_inShape
+  intro S hS
+  rw [hone S (by rw [hsh]; exact hS), one_mul,
+    anova_term_bruteforce t ws S x hw ((anova_inShape_two S t.length).mp hS).1 hx]
+
+/-- **the ANOVA decomposition of the truncated tensor has exactly the selected terms**: its term of the subset `S'`
+    is the mask's entry at `S'` times the term of `t` — for a 0/1 mask the selected terms are kept unchanged and
+    all others vanish -/
+theorem truncate_keeps_selected (t mask : Tensor R) (ws : List (Nat → R)) (ht : t.WF) (hm : mask.WF)
+    (hok : anovaMargOK ws t.shape) (hsh : mask.shape = List.replicate t.length 2)
+    (S' x : List Nat) (hS' : inShape S' (List.replicate t.length 2)) (hx : inShape x t.shape) :
+    ((t.truncateAnovaKeep mask ws).anova ws).dense (anovaExtIdx S' x) =
+      mask.dense S' * (t.anova ws).dense (anovaExtIdx S' x) := by
+  have hw : ws.length = t.length := by rw [anovaMargOK_length ws t.shape hok, shape_length]
+  have hml : mask.length = t.length := by
+    have := congrArg List.length hsh; simpa [Tensor.shape] using this
+  obtain ⟨u1, u2, u3⟩ := truncate_anova_terms t mask ws ht hm hw hml
+    (by rw [hsh]; intro n hn; rw [List.eq_of_mem_replicate hn]; decide)
+  set u := t.truncateAnovaKeep mask ws with hu
+  have hul : u.length = t.length := by
+    have := congrArg List.length u2; simpa [Tensor.shape] using this
+  have hxl : x.length = t.length := by rw [inShape_length x t.shape hx, shape_length]
+  obtain ⟨hSl', hSb'⟩ := (anova_inShape_two S' t.length).mp hS'
+  have hWl := anovaNormWs_length ws t.shape (by rw [shape_length, hw])
+  rw [anova_dense_term u ws S' x (by rw [hw, hul]) (by rw [hSl', hul]) (by rw [hxl, hul]), u2,
+    anova_dense_term t ws S' x hw hSl' hxl]
+  rw [anovaTerm_congr_in (anovaNormWs ws t.shape) t.shape u.dense
+    (fun y => boxSum (List.replicate t.length 2) (fun S =>
+      mask.dense (anovaClamp mask.shape S) * anovaTerm (anovaNormWs ws t.shape) t.shape t.dense S y)) S' x
+    hWl (by rw [shape_length, hSl']) (by rw [shape_length, hxl]) u3]
+  rw [anovaTerm_boxSum]
+  rw [anova_boxSum_single (List.replicate t.length 2) S' _ hS']
+  · rw [anovaTerm_idem _ _ _ S' S' x (anovaNormalized_normWs ws t.shape hok) (by rw [shape_length, hSl'])
+      (by rw [shape_length, hSl']) hx, if_pos rfl, hsh, ← hSl', anovaClamp_two S' hSb']
+  · intro S hS hne
+    obtain ⟨hSl, hSb⟩ := (anova_inShape_two S t.length).mp hS
+    rw [anovaTerm_idem _ _ _ S S' x (anovaNormalized_normWs ws t.shape hok) (by rw [shape_length, hSl])
+      (by rw [shape_length, hSl']) hx, if_neg (fun h => hne (anovaBits_eq S S' hSb hSb' h)), mul_zero]
+
+/-! ### `keepdim=False`: the modes no selected term involves are indexed away -/
+
+/-- the indexing `u[0 at the flagged modes, : elsewhere]` (what `truncate_anova` does with `slices`): it never fails
+    when the flagged modes are not empty; if every mode is flagged the result is the scalar entry at `(0,…,0)`,
+    otherwise a well-formed tensor whose shape is that of `u` with the flagged modes deleted and whose entries are
+    those of `u` with index `0` re-inserted at the deleted modes -/
+theorem truncAnova_getitem (u : Tensor R) (hu : u.WF) (dims : List Bool) (hd : dims.length = u.length)
+    (h1 : truncFlaggedPos dims u.shape) :
+    (dims.all id = true → u.getitem (squeezeKey dims) = .ok (.inr (u.dense (List.replicate u.length 0)))) ∧
+    (dims.all id = false → ∃ v : Tensor R, u.getitem (squeezeKey dims) = .ok (.inl v) ∧ v.WF ∧
+      v.shape = keepShape dims u.shape ∧
+      ∀ out, out.length = v.length → v.dense out = u.dense (fillIdx dims out)) := by
+  have hp : processKey u.length (squeezeKey dims) = .ok (squeezeKey dims) := by
+    rw [← hd]; exact processKey_squeeze dims
+  have hsl : dims.length = u.shape.length := by rw [shape_length]; exact hd
+  have hn : normKey (squeezeKey dims) u.shape = .ok (sqItems dims u.shape) := truncAnova_normKey dims u.shape hsl h1
+  obtain ⟨lastRR, hfin⟩ := getitem_unfold u _ _ _ hp hn
+  obtain ⟨r, hr1, hr2, hr3⟩ := goKey_sq (R := R) lastRR dims u false Option.none hd
+  have hwfr : ∀ m l, r.1 = m :: l → Tensor.WF (m :: l) := by
+    intro m l hml
+    cases u with
+    | nil => exact absurd hu (by simp [Tensor.WF])
+    | cons m0 rest =>
+      have := (goKey_sq_wf lastRR dims (m0 :: rest) false Option.none m0.core.rl r hd hu (by intro q hq; cases hq) hr1).1
+      rw [hml] at this
+      simp only [rowdim] at this
+      exact ⟨rfl, this.2.1, this.2.2⟩
+  rw [← groupKey_sq] at hr1
+  have hg := hfin r hr1
+  have hkl := keepShape_length dims u.shape hsl
+  constructor
+  · intro hall
+    have hks := (keepShape_eq_nil dims u.shape hsl).mpr hall
+    have hk : r.1 = [] := by rw [hks] at hr2; simpa [Tensor.shape] using hr2
+    have hkc : keepCount dims = 0 := by rw [← hkl, hks]; rfl
+    have hne : dims ≠ [] := by
+      intro h; subst h
+      cases u with
+      | nil => simp [Tensor.WF] at hu
+      | cons _ _ => simp at hd
+    obtain ⟨l, q⟩ := r
+    simp only at hk; subst hk
+    have hq := hr3 rfl (Or.inr hne)
+    cases q with
+    | none => simp at hq
+    | some q =>
+      simp only [finishKey] at hg
+      have hf : fits (groupKey (sqItems dims u.shape)) u.length 0 := by
+        rw [groupKey_sq, ← hd, ← hkc]; exact fits_sq dims u.shape hsl
+      have hx := C03.getitem_scalar u hu _ _ _ hp hn q.total hg hf
+      rw [hg, hx, groupKey_sq, srcIdx_sq dims u.shape [] hsl (by simp [hkc]), fillIdx_all dims hall, hd]
+  · intro hnot
+    have hks : keepShape dims u.shape ≠ [] := by
+      intro h; have := (keepShape_eq_nil dims u.shape hsl).mp h; rw [this] at hnot; cases hnot
+    obtain ⟨l, q⟩ := r
+    cases l with
+    | nil => exact absurd hr2.symm hks
+    | cons m l =>
+      simp only [finishKey] at hg
+      refine ⟨m :: l, hg, hwfr m l rfl, hr2, ?_⟩
+      intro out ho
+      have hol : out.length = keepCount dims := by
+        rw [ho, ← hkl, ← hr2, shape_length]
+      have hf : fits (groupKey (sqItems dims u.shape)) u.length out.length := by
+        rw [groupKey_sq, ← hd, hol]; exact fits_sq dims u.shape hsl
+      rw [C03.getitem_tensor u hu _ _ _ hp hn m l hg out hf, groupKey_sq, srcIdx_sq dims u.shape out hsl hol]
+
+/-- with `keepdim=True` the routine returns the tensor of `truncate_anova_dense` as it is -/
+theorem truncate_anova_keepdim (toNat : R → Nat) (t mask : Tensor R) (ws : List (Nat → R)) :
+    t.truncateAnova toNat mask true ws = some (.inl (t.truncateAnovaKeep mask ws)) := by
+  simp [Tensor.truncateAnova]
+
+/-- **`truncate_anova(t, mask, keepdim=False, marginals)`** for a mask with non-negative integer entries `v`
+    (in particular a 0/1 mask), `toNat` being the rounding inside `accepted_inputs`:
+    * the modes that are dropped are exactly those that no selected subset (index of a non-zero mask entry)
+      contains;
+    * nothing raises; if every mode is dropped the result is the scalar entry `(0,…,0)` of the `keepdim=True`
+      result, otherwise it is a well-formed tensor whose shape is that of `t` without the dropped modes and whose
+      entries are those of the `keepdim=True` result, read at index `0` along the dropped modes. -/
+theorem truncate_anova_squeeze (toNat : R → Nat) (htn : ∀ n : Nat, toNat (n : R) = n)
+    (t mask : Tensor R) (ws : List (Nat → R)) (ht : t.WF) (hm : mask.WF) (hw : ws.length = t.length)
+    (hml : mask.length = t.length) (hposm : ∀ n ∈ mask.shape, 0 < n) (hpost : ∀ n ∈ t.shape, 0 < n)
+    (hb : mask.tt.boundaryOne = true) (v : List Nat → Nat)
+    (hv : ∀ idx, inShape idx mask.shape → mask.dense idx = (v idx : R))
+    (dims : List Bool) (hdims : dims = droppedModes (colSums t.length (acceptedSpec mask.shape v))) :
+    (∀ k, dims.getD k false = true ↔
+      k < t.length ∧ ∀ idx, inShape idx mask.shape → v idx ≠ 0 → idx.getD k 0 = 0) ∧
+    (dims.all id = true → t.truncateAnova toNat mask false ws =
+      some (.inr ((t.truncateAnovaKeep mask ws).dense (List.replicate t.length 0)))) ∧
+    (dims.all id = false → ∃ r : Tensor R, t.truncateAnova toNat mask false ws = some (.inl r) ∧ r.WF ∧
+      r.shape = keepShape dims t.shape ∧
+      ∀ out, out.length = r.length → r.dense out = (t.truncateAnovaKeep mask ws).dense (fillIdx dims out)) := by
+  obtain ⟨u1, u2, _⟩ := truncate_anova_terms t mask ws ht hm hw hml hposm
+  have hul : (t.truncateAnovaKeep mask ws).length = t.length := by
+    have := congrArg List.length u2; simpa [Tensor.shape] using this
+  have hacc := C16.accepted_inputs_spec_any toNat htn mask hm hb v hv
+  have hrun : t.truncateAnova toNat mask false ws =
+      match (t.truncateAnovaKeep mask ws).getitem (squeezeKey dims) with
+      | .ok r => some r
+      | .error _ => Option.none := by
+    simp only [Tensor.truncateAnova, Tensor.truncateAnovaSqueeze, Bool.false_eq_true, if_false, hacc, hul, hdims]
+    rfl
+  have hdl : dims.length = (t.truncateAnovaKeep mask ws).length := by
+    rw [hdims, droppedModes_colSums_length, hul]
+  obtain ⟨g1, g2⟩ := truncAnova_getitem (t.truncateAnovaKeep mask ws) u1 dims hdl
+    (truncFlaggedPos_of_pos dims _ (by rw [u2]; exact hpost))
+  refine ⟨?_, ?_, ?_⟩
+  · intro k
+    rw [hdims, droppedModes_colSums_getD]
+    constructor
+    · rintro ⟨h1, h2⟩
+      exact ⟨h1, fun idx hi hvi => h2 idx ((mem_acceptedSpec _ _ idx).mpr ⟨hi, hvi⟩)⟩
+    · rintro ⟨h1, h2⟩
+      refine ⟨h1, fun r hr => ?_⟩
+      obtain ⟨hi, hvi⟩ := (mem_acceptedSpec _ _ r).mp hr
+      exact h2 r hi hvi
+  · intro hall
+    rw [hrun, g1 hall, hul]
+  · intro hnot
+    obtain ⟨r, h1, h2, h3, h4⟩ := g2 hnot
+    exact ⟨r, by rw [hrun, h1], h2, by rw [h3, u2], h4⟩
+
+/-- **the dropped modes are really constant**: for a mask over the 2-symbol box with non-negative integer entries,
+    the `keepdim=True` result does not depend on a variable that no selected subset contains — so indexing it at `0`
+    (what `keepdim=False` does) loses nothing -/
+theorem truncate_anova_dropped_constant (t mask : Tensor R) (ws : List (Nat → R)) (ht : t.WF) (hm : mask.WF)
+    (hw : ws.length = t.length) (hsh : mask.shape = List.replicate t.length 2) (v : List Nat → Nat)
+    (hv : ∀ idx, inShape idx mask.shape → mask.dense idx = (v idx : R))
+    (x x' : List Nat) (hx : inShape x t.shape) (hx' : inShape x' t.shape)
+    (hagree : ∀ k, (∃ idx, inShape idx mask.shape ∧ v idx ≠ 0 ∧ idx.getD k 0 ≠ 0) → x.getD k 0 = x'.getD k 0) :
+    (t.truncateAnovaKeep mask ws).dense x = (t.truncateAnovaKeep mask ws).dense x' := by
+  have hml : mask.length = t.length := by
+    have := congrArg List.length hsh; simpa [Tensor.shape] using this
+  obtain ⟨_, _, u3⟩ := truncate_anova_terms t mask ws ht hm hw hml
+    (by rw [hsh]; intro n hn; rw [List.eq_of_mem_replicate hn]; decide)
+  have hxl : x.length = t.length := by rw [inShape_length x t.shape hx, shape_length]
+  have hxl' : x'.length = t.length := by rw [inShape_length x' t.shape hx', shape_length]
+  rw [u3 x hx, u3 x' hx']
+  apply boxSum_congr_inShape
+  intro S hS
+  obtain ⟨hSl, hSb⟩ := (anova_inShape_two S t.length).mp hS
+  rw [hsh, ← hSl, anovaClamp_two S hSb]
+  by_cases h0 : v S = 0
+  · rw [hv S (by rw [hsh]; exact hS), h0]; simp
+  · congr 1
+    unfold anovaTerm
+    rw [anovaExtIdx_agree S x x' (by rw [hxl, hxl'])
+      (fun k hk => hagree k ⟨S, by rw [hsh]; exact hS, h0, hk⟩)]
+
+
+/-! ### non-vacuity: `C06.exQ` (shape `[2, 2]`, TT core with a Tucker factor, then a CP factor, over ℚ), the masks
+    `only(x₀)` (entry 1 at the subset `{0}` only) and "all terms", marginals `(1, 2)` and `(3, 1)` -/
+section nonvacuous
+
+/-- the 0/1 mask over the 2-symbol box that selects the subset `{0}` only (`tn.only(x[0])` for two variables) -/
+def exMask : Tensor ℚ :=
+  [ { core := .tt 1 2 1 (fun _ j _ => if j = 1 then 1 else 0), U := Option.none },
+    { core := .tt 1 2 1 (fun _ j _ => if j = 0 then 1 else 0), U := Option.none } ]
+/-- its entries as naturals -/
+def exMaskV : List Nat → Nat
+  | [1, 0] => 1 | _ => 0
+/-- the mask that selects every term -/
+def exOnes : Tensor ℚ :=
+  [ { core := .tt 1 2 1 (fun _ _ _ => 1), U := Option.none }, { core := .tt 1 2 1 (fun _ _ _ => 1), U := Option.none } ]
+/-- marginals (not normalised) -/
+def exWs : List (Nat → ℚ) := [fun i => (i : ℚ) + 1, fun i => 3 - 2 * (i : ℚ)]
+
+theorem exMask_wf : exMask.WF := by simp [exMask, Tensor.WF, Tensor.WFfrom, TMode.ok, Core.rl, Core.rr]
+theorem exOnes_wf : exOnes.WF := by simp [exOnes, Tensor.WF, Tensor.WFfrom, TMode.ok, Core.rl, Core.rr]
+theorem exMask_shape : exMask.shape = List.replicate C06.exQ.length 2 := by
+  simp [exMask, C06.exQ, Tensor.shape, TMode.n, Core.spatial, List.replicate]
+theorem exOnes_shape : exOnes.shape = List.replicate C06.exQ.length 2 := by
+  simp [exOnes, C06.exQ, Tensor.shape, TMode.n, Core.spatial, List.replicate]
+theorem exWs_ok : anovaMargOK exWs C06.exQ.shape := by
+  simp [anovaMargOK, exWs, C06.exQ, Tensor.shape, TMode.n, sumTo]; norm_num
+theorem exMask_vals : ∀ idx, inShape idx exMask.shape → exMask.dense idx = (exMaskV idx : ℚ) := by
+  intro idx h
+  match idx, h with
+  | [i, j], h =>
+    simp only [exMask, Tensor.shape, List.map_cons, List.map_nil, TMode.n, Core.spatial, inShape] at h
+    obtain ⟨hi, hj, _⟩ := h
+    have h1 : i = 0 ∨ i = 1 := by omega
+    have h2 : j = 0 ∨ j = 1 := by omega
+    rcases h1 with rfl | rfl <;> rcases h2 with rfl | rfl <;>
+      simp [exMask, exMaskV, Tensor.dense, Tensor.modes, TMode.toMode, TN.dense, tail, sumTo, TMode.decomp, Core.get,
+        Core.rl, Core.rr]
+theorem exOnes_vals : ∀ S, inShape S exOnes.shape → exOnes.dense S = 1 := by
+  intro idx h
+  match idx, h with
+  | [i, j], h =>
+    simp [exOnes, Tensor.dense, Tensor.modes, TMode.toMode, TN.dense, tail, sumTo, TMode.decomp, Core.get,
+      Core.rl, Core.rr]
+
+example := truncate_anova_dense C06.exQ exMask exWs C06.exQ_wf exMask_wf rfl rfl
+  (by rw [exMask_shape]; intro n hn; rw [List.eq_of_mem_replicate hn]; decide)
+example := truncate_anova_dense_box C06.exQ exMask exWs C06.exQ_wf exMask_wf rfl exMask_shape [1, 0]
+  (by simp [C06.exQ, Tensor.shape, TMode.n, inShape])
+example := anova_term_bruteforce C06.exQ exWs [1, 0] [1, 1] rfl rfl (by simp [C06.exQ, Tensor.shape, TMode.n, inShape])
+example := anova_term_depends_only C06.exQ exWs [1, 0] [1, 0] [1, 1] rfl
+  (by intro k hk; match k with
+    | 0 => rfl
+    | 1 => simp at hk
+    | k + 2 => simp at hk)
+example := anova_term_centered C06.exQ exWs [1, 0] [] [1] rfl rfl rfl (by simp)
+  (by simp [exWs, C06.exQ, Tensor.shape, TMode.n, sumTo]; norm_num)
+example := anova_empty_term C06.exQ exWs rfl
+example := anova_terms_sum C06.exQ exWs [1, 1] rfl (by simp [C06.exQ, Tensor.shape, TMode.n, inShape])
+example := anova_terms_orthogonal C06.exQ exWs [1, 0] [1, 1] exWs_ok (by simp [C06.exQ, inShape, List.replicate])
+  (by simp [C06.exQ, inShape, List.replicate]) (by decide)
+example := truncate_all C06.exQ exOnes exWs C06.exQ_wf exOnes_wf rfl exOnes_shape exOnes_vals [0, 1]
+  (by simp [C06.exQ, Tensor.shape, TMode.n, inShape])
+example := truncate_keeps_selected C06.exQ exMask exWs C06.exQ_wf exMask_wf exWs_ok exMask_shape [1, 0] [0, 1]
+  (by simp [C06.exQ, inShape, List.replicate]) (by simp [C06.exQ, Tensor.shape, TMode.n, inShape])
+example := truncate_anova_squeeze (fun q : ℚ => q.num.toNat) (by intro n; simp) C06.exQ exMask exWs C06.exQ_wf exMask_wf
+  rfl rfl (by rw [exMask_shape]; intro n hn; rw [List.eq_of_mem_replicate hn]; decide) C06.exQ_pos
+  (by rw [tt_of_pure _ (by rfl)]; rfl) exMaskV exMask_vals _ rfl
+example := truncate_anova_dropped_constant C06.exQ exMask exWs C06.exQ_wf exMask_wf rfl exMask_shape exMaskV exMask_vals
+
+end nonvacuous
 
 end TN.C10
